@@ -36,7 +36,8 @@ GoodHostKinds == {"dns", "v4", "v6"}
 V6NoKinds == Id!V6NoAtoms \ {"v6no1", "v6no9"}        \* = br_empty, br_ipv4 below
 BadHostKinds == {"empty", "underscore", "space_in", "space_lead", "space_trail", "nonascii", "fourbyte", "nul",
                  "slash", "at", "percent", "dns256",
-                 "br_ipv4", "br_name", "br_empty", "br_trailing", "br_nested", "unclosed", "unopened", "barev6"}
+                 "br_ipv4", "br_name", "br_empty", "br_trailing", "br_nested", "unclosed", "unopened", "barev6",
+                 "mapped_bare"}
                 \cup V6NoKinds
 HostChars(k) ==
     CASE k = "dns" -> <<"<dns>">>
@@ -62,6 +63,7 @@ HostChars(k) ==
       [] k = "unclosed" -> <<"[", "<v6>">>
       [] k = "unopened" -> <<"<v6>", "]">>
       [] k = "barev6" -> <<"<v6>">>
+      [] k = "mapped_bare" -> <<":", ":", "f", "f", "f", "f", ":", "<v4>">>     \* ::ffff:1.2.3.4 (b894d2f)
       [] OTHER -> <<"[">> \o Id!Chars(k) \o <<"]">>         \* Ident's table of invalid IPv6 bodies
 
 GoodPortKinds == {"none", "ok"}
@@ -114,25 +116,36 @@ NamesPerIdent ==
 \* (checked once, as the first conjunct of Init: SANY gives instanced operators that mention a
 \* substituted variable level 1, so it cannot be an ASSUME)
 
-Origins == {MkName("S", "no", p, TRUE) : p \in {NoPort, OriginPort}}
+\* valid shapes.  Ports at the edges of the grammar (0, 65535) besides an ordinary one; L6M is a
+\* bracketed IPv4-mapped IPv6 literal (valid, unlike its unbracketed spelling).
+OriginPorts == {OriginPort, 0, 65535}
+DelegPorts == {DelegPort, 0, 65535}
+Origins == {MkName("S", "no", p, TRUE) : p \in {NoPort} \cup OriginPorts}
       \cup {MkName("L4", "v4", p, TRUE) : p \in {NoPort, OriginPort}}
       \cup {MkName("L6", "v6", p, TRUE) : p \in {NoPort, OriginPort}}
+      \cup {MkName("L6M", "v6", p, TRUE) : p \in {NoPort, OriginPort}}
       \cup {Inv(hp) : hp \in InvKinds}
 
 DName == MkName("D", "no", NoPort, TRUE)
 InvDelegKinds == InvKinds \ {<<"empty", "none">>}      \* the empty string is "no m.server"
 \* invalid delegations that get the full SRV product also in the quick tier
 CoreInvDeleg == {<<"underscore", "none">>, <<"dns", "plus">>, <<"dns", "empty">>, <<"br_ipv4", "none">>, <<"barev6", "none">>}
-DelegTargets == {DName, MkName("D", "no", DelegPort, TRUE)}
+\* valid delegation targets: another name (also spelled in upper case: DU, with a trailing dot: Ddot),
+\* literals, and coincidences - the origin itself (S: "well-known pointing at itself") and the origin in
+\* upper case (SU: differs from it only in letter case)
+ValidDelegTargets == {MkName(h, "no", NoPort, TRUE) : h \in {"D", "DU", "Ddot", "S", "SU"}}
+      \cup {MkName("D", "no", p, TRUE) : p \in DelegPorts}
+      \cup {MkName("S", "no", DelegPort, TRUE)}
       \cup {MkName("DL4", "v4", p, TRUE) : p \in {NoPort, DelegPort}}
       \cup {MkName("DL6", "v6", p, TRUE) : p \in {NoPort, DelegPort}}
-      \cup {Inv(hp) : hp \in InvDelegKinds}
+      \cup {MkName("DL6M", "v6", p, TRUE) : p \in {NoPort, DelegPort}}
+DelegTargets == ValidDelegTargets \cup {Inv(hp) : hp \in InvDelegKinds}
 
 \* ---- well-known outcomes --------------------------------------------------
 WKrec(st, size, cl, pad, body, tgt) ==
-    [status |-> st, size |-> size, cl |-> cl, pad |-> pad, body |-> body, target |-> tgt]
+    [status |-> st, size |-> size, cl |-> cl, pad |-> pad, body |-> body, target |-> tgt, redir |-> "none"]
 
-BadStatus == IF Depth = "quick" THEN {0, 404, 500, 206} ELSE {0, 404, 500, 206, 204, 301, 403, 503}
+BadStatus == IF Depth = "quick" THEN {0, 404, 500, 206} ELSE {0, 404, 500, 206, 201, 203, 204, 301, 403, 503}
 BadBodies == {"malformed", "no_mserver", "empty_mserver", "wrongtype"}
 
 WKs ==
@@ -147,55 +160,88 @@ WKs ==
     \* padding after the JSON value ("tail") or inside it ("inside")
     \cup {WKrec(200, sz, cl, pad, "ok", DName) :
               sz \in {"eq50k", "over50k"}, cl \in BOOLEAN, pad \in {"tail", "inside"}}
+    \* redirects: for ever to itself (there never is a reply) | once, to a good / an oversized / a malformed document
+    \cup {[WKrec(302, "small", TRUE, "none", "ok", DName) EXCEPT !.redir = "loop"]}
+    \cup {[WKrec(st, "small", TRUE, "none", "ok", DName) EXCEPT !.redir = "ok"] :
+              st \in (IF Depth = "quick" THEN {302} ELSE {301, 302, 307, 308})}
+    \cup {[WKrec(302, "over50k", FALSE, "tail", "ok", DName) EXCEPT !.redir = "ok"],
+          [WKrec(302, "small", TRUE, "none", "malformed", NoName) EXCEPT !.redir = "ok"]}
 
 \* what a name that must not be looked up would answer (a followable delegation)
 WKDistinct == WKrec(200, "small", TRUE, "none", "ok", DName)
 
 \* ---- SRV outcomes ---------------------------------------------------------
-SrvKinds == {"nx", "nodata", "one", "many", "err"}
-SrvPort(rl, svc, k) == 4000 + (IF rl = "deleg" THEN 100 ELSE 0) + (IF svc = "legacy" THEN 10 ELSE 0) + k
+\*  one | many (three priorities, wire order is not priority order) | tie (two records of equal priority, then
+\*  a third) | self (the target is the queried name itself) | edge (priority 0 / 65535, port 65535 / 1)
+SrvKinds == {"nx", "nodata", "one", "many", "tie", "self", "edge", "err"}
+SrvKindsSlim == {"nx", "one", "err"}
+SrvPort(rl, svc, k) == 4000 + (IF rl = "D" THEN 100 ELSE 0) + (IF svc = "legacy" THEN 10 ELSE 0) + k
 Rec(rl, svc, k) == [t |-> "T_" \o rl \o "_" \o svc \o "_" \o ToString(k),
-                    port |-> SrvPort(rl, svc, k), prio |-> 10 * k]
+                    port |-> SrvPort(rl, svc, k), prio |-> 10 * k, tb |-> 0]
 Ans(rl, svc, kind) ==
     CASE kind = "one"  -> [rc |-> "ok", recs |-> <<Rec(rl, svc, 1)>>]
-      [] kind = "many" -> [rc |-> "ok", recs |-> <<Rec(rl, svc, 2), Rec(rl, svc, 1), Rec(rl, svc, 3)>>]  \* wire order is not priority order
+      [] kind = "many" -> [rc |-> "ok", recs |-> <<Rec(rl, svc, 2), Rec(rl, svc, 1), Rec(rl, svc, 3)>>]
+      [] kind = "tie"  -> [rc |-> "ok", recs |-> <<Rec(rl, svc, 3), [Rec(rl, svc, 1) EXCEPT !.tb = 1],
+                                                   [Rec(rl, svc, 2) EXCEPT !.prio = 10, !.tb = 2]>>]
+      [] kind = "self" -> [rc |-> "ok", recs |-> <<[Rec(rl, svc, 1) EXCEPT !.t = rl]>>]
+      [] kind = "edge" -> [rc |-> "ok", recs |-> <<[Rec(rl, svc, 2) EXCEPT !.prio = 65535, !.port = 1],
+                                                   [Rec(rl, svc, 1) EXCEPT !.prio = 0, !.port = 65535]>>]
       [] OTHER         -> [rc |-> kind, recs |-> <<>>]
 
 InitResolve ==
     \E o \in Origins :
     \E w \in (IF Plain(o) THEN WKs ELSE {WKDistinct}) :
-    LET readsO == Plain(o) /\ ~(Honoured(w) /\ w.target.valid)
-        readsD == Plain(o) /\ Honoured(w) /\ Plain(w.target)
-        full == Depth = "thorough" /\ Plain(o) /\ w.size = "small" /\ ~(Honoured(w) /\ ~w.target.valid)
-        slim == Depth = "quick" /\ Honoured(w) /\ ~w.target.valid /\ w.target \notin {Inv(hp) : hp \in CoreInvDeleg}
+    LET maybe == GoodDoc(w) /\ (w.status = 200 \/ w.redir = "ok")       \* honoured under some latitude
+        surely == GoodDoc(w) /\ w.status = 200
+        key == DnsKey(w.target.host)
+        readsS == Plain(o) /\ (~(surely /\ w.target.valid) \/ (Plain(w.target) /\ key = "S"))
+        readsD == Plain(o) /\ maybe /\ Plain(w.target) /\ key = "D"
+        full == Depth = "thorough" /\ Plain(o) /\ w.size = "small" /\ w.redir = "none" /\ ~(maybe /\ ~w.target.valid)
+        slim == \/ Depth = "quick" /\ maybe /\ ~w.target.valid /\ w.target \notin {Inv(hp) : hp \in CoreInvDeleg}
+                \/ w.redir = "ok" /\ maybe        \* both tables are read (latitude): keep their product small
+        ks(reads) == IF slim /\ reads THEN SrvKindsSlim ELSE IF reads \/ full THEN SrvKinds ELSE {"one"}
     IN
-    \E of \in (IF slim THEN {"nx", "one", "err"} ELSE IF readsO \/ full THEN SrvKinds ELSE {"one"}),
-       ol \in (IF slim THEN {"nx", "one"} ELSE IF readsO \/ full THEN SrvKinds ELSE {"one"}),
-       df \in (IF readsD \/ full THEN SrvKinds ELSE {"one"}),
-       dl \in (IF readsD \/ full THEN SrvKinds ELSE {"one"}) :
-    \E se \in {"next", "default", "refuse"}, bd \in {"refuse", "step4"} :
+    \E sf \in ks(readsS), sl \in (IF slim /\ readsS THEN {"nx", "one"} ELSE ks(readsS)),
+       df \in ks(readsD), dl \in (IF slim /\ readsD THEN {"nx", "one"} ELSE ks(readsD)) :
+    LET anyErr == "err" \in {sf, sl, df, dl}
+        anyTie == "tie" \in {sf, sl, df, dl}
+    IN
+    \* latitude dimensions are enumerated only where the scenario can read them
+    \E se \in (IF anyErr THEN {"next", "default", "refuse"} ELSE {"next"}),
+       bd \in (IF maybe /\ ~w.target.valid THEN {"refuse", "step4"} ELSE {"refuse"}),
+       rd \in (IF w.redir = "ok" THEN {"follow", "ignore"} ELSE {"follow"}),
+       ti \in (IF anyTie THEN {"ab", "ba"} ELSE {"ab"}) :
        /\ origin = o /\ wk = w
-       /\ srv = [origin |-> [fed |-> Ans("origin", "fed", of), legacy |-> Ans("origin", "legacy", ol)],
-                 deleg  |-> [fed |-> Ans("deleg", "fed", df), legacy |-> Ans("deleg", "legacy", dl)]]
-       /\ lat = [srverr |-> se, baddeleg |-> bd]
+       /\ srv = [S |-> [fed |-> Ans("S", "fed", sf), legacy |-> Ans("S", "legacy", sl)],
+                 D |-> [fed |-> Ans("D", "fed", df), legacy |-> Ans("D", "legacy", dl)]]
+       /\ lat = [srverr |-> se, baddeleg |-> bd, redirect |-> rd, tie |-> ti]
        /\ Start
        /\ cache = [cc |-> "", n |-> 0, ex |-> "", off |-> 0]
 
 \* ---- cache lifetime -------------------------------------------------------
 \* Cache-Control presentations: absent | "max-age=N" | "MAX-AGE=N" | "public, max-age=N, must-revalidate"
-\*                              | "max-age=abc" | "no-cache, s-maxage=N"
-CCKinds == {"absent", "plain", "upper", "among", "bad", "other"}
-ExKinds == {"absent", "valid", "garbage"}        \* Expires: absent | IMF-fixdate now+off | not a date
-MaxAgeOf(cc, n) == IF cc \in {"plain", "upper", "among"} THEN n ELSE -1
-ExpiresOf(ex, off) == IF ex = "valid" THEN off ELSE -1
+\*       | "max-age=abc" | "no-cache, s-maxage=N" | "max-age=-N" (negative: not a delta-seconds value; the
+\*       property does not say whether that is "no max-age" or "stale at once": both readings are emitted)
+CCKinds == {"absent", "plain", "upper", "among", "bad", "other", "negative"}
+ExKinds == {"absent", "valid", "past", "garbage"}   \* Expires: absent | IMF-fixdate now+off | now-off | not a date
+Ages == {0, 60, 86400, 2000000000}                  \* 0: stale at once; 2*10^9 s: expiry beyond 2^31
+Some(v) == [has |-> TRUE, v |-> v]
+None == [has |-> FALSE, v |-> 0]
+MaxAgeOf(cc, n) == IF cc \in {"plain", "upper", "among"} THEN Some(n) ELSE None
+ExpiresOf(ex, off) == IF ex = "valid" THEN Some(off) ELSE IF ex = "past" THEN Some(0 - off) ELSE None
+CacheExpect(c) ==
+    IF c.cc = "negative"
+    THEN <<CacheLifetime(Some(0 - c.n), ExpiresOf(c.ex, c.off)), CacheLifetime(None, ExpiresOf(c.ex, c.off))>>
+    ELSE <<CacheLifetime(MaxAgeOf(c.cc, c.n), ExpiresOf(c.ex, c.off))>>
 
 InitCache ==
-    \E cc \in CCKinds, n \in {0, 60, 86400}, ex \in ExKinds, off \in {3600, 200000} :
+    \E cc \in CCKinds, n \in Ages, ex \in ExKinds, off \in {3600, 200000} :
+       /\ (cc = "negative" => n \in {60, 86400})
        /\ cache = [cc |-> cc, n |-> n, ex |-> ex, off |-> off]
        /\ origin = MkName("S", "no", NoPort, TRUE) /\ wk = WKDistinct
-       /\ srv = [origin |-> [fed |-> Ans("origin", "fed", "nx"), legacy |-> Ans("origin", "legacy", "nx")],
-                 deleg  |-> [fed |-> Ans("deleg", "fed", "nx"), legacy |-> Ans("deleg", "legacy", "nx")]]
-       /\ lat = [srverr |-> "next", baddeleg |-> "refuse"]
+       /\ srv = [S |-> [fed |-> Ans("S", "fed", "nx"), legacy |-> Ans("S", "legacy", "nx")],
+                 D |-> [fed |-> Ans("D", "fed", "nx"), legacy |-> Ans("D", "legacy", "nx")]]
+       /\ lat = [srverr |-> "next", baddeleg |-> "refuse", redirect |-> "follow", tie |-> "ab"]
        /\ pc = "done" /\ cur = origin /\ role = "origin" /\ result = <<>> /\ refused = FALSE
        /\ wkreqs = <<>> /\ srvq = <<>> /\ steps = <<>>
 
@@ -206,10 +252,11 @@ Spec == Init /\ [][GNext]_gvars
 
 \* ---- oracle sanity (consequences that must hold; they catch spec mistakes) ----
 CacheSane ==
-    /\ CacheLifetime(60, 3600) = [kind |-> "relative", secs |-> 60]      \* max-age beats Expires
-    /\ CacheLifetime(0, 3600).kind = "relative"
-    /\ CacheLifetime(-1, 3600) = [kind |-> "absolute", secs |-> 3600]
-    /\ CacheLifetime(-1, -1).kind = "none"
+    /\ CacheLifetime(Some(60), Some(3600)) = [kind |-> "relative", secs |-> 60]      \* max-age beats Expires
+    /\ CacheLifetime(Some(0), Some(3600)) = [kind |-> "relative", secs |-> 0]        \* also max-age=0
+    /\ CacheLifetime(None, Some(3600)) = [kind |-> "absolute", secs |-> 3600]
+    /\ CacheLifetime(None, Some(0 - 3600)) = [kind |-> "absolute", secs |-> 0 - 3600] \* a past Expires is a value
+    /\ CacheLifetime(None, None).kind = "none"
 Terminates == Len(steps) <= 10
 ResolveInvs == Family = "resolve" =>
     /\ HostSNI /\ DestOK /\ NoSecondWellKnown /\ InvalidRefused /\ RefusedOnlyIf
@@ -218,7 +265,7 @@ ResolveInvs == Family = "resolve" =>
 Emit == Done =>
     IF Family = "cache"
     THEN PrintT(ToJson([fam |-> "cache", cache |-> cache,
-                        expect |-> CacheLifetime(MaxAgeOf(cache.cc, cache.n), ExpiresOf(cache.ex, cache.off))]))
+                        expect |-> CacheExpect(cache)]))
     ELSE PrintT(ToJson([fam |-> "resolve", origin |-> origin, wk |-> wk, srv |-> srv, lat |-> lat,
                         refused |-> refused, result |-> result, wkreqs |-> wkreqs, nsrvq |-> Len(srvq),
                         spell |-> [o |-> TxtOf(origin), d |-> TxtOf(wk.target)],
